@@ -81,6 +81,9 @@ def monitor(c):
                 seen = set()
                 cur = li
             seen.add(win.tid)
+    if len(parsed["headers"]) >= 2 and parsed["total"] is None and not c.obs.timeout:
+        return ("%d layers were run (%r) but the run ended without its 'Total:' line" % (
+            len(parsed["headers"]), parsed["headers"][:4]), "C04:no-total")
     if len(parsed["summaries"]) < nlayer_iters:
         return ("%d layer runs executed tests but only %d summaries were printed" % (nlayer_iters, len(parsed["summaries"])),
                 "C04:summary")
